@@ -436,6 +436,25 @@ func (c *c12Run) run(f []string) string {
 		c12CloseSession(rc.sess)
 		c12CloseSession(rs.sess)
 		return out
+	case len(f) == 2 && f[0] == "cliq" && f[1] == "file":
+		// the client's queue file already exists (a lost session of the same id has not been cleaned up yet, a stale file,
+		// ...): newSession fails after it has obtained the shared buffer manager; that reference must be given back
+		conn, raw, err := c12SocketPair()
+		if err != nil {
+			return "bad-op"
+		}
+		defer syscall.Close(raw)
+		cfg := c12Config(c.prefix, MemMapTypeDevShmFile)
+		os.WriteFile(cfg.QueuePath, []byte("x"), 0o644)
+		s, err := newSession(cfg, conn, true)
+		if err == nil {
+			c12CloseSession(s)
+			c.setFail("queue-exists-accepted", "newSession succeeded although its queue file already existed")
+			return "c=ok sent="
+		}
+		conn.Close()
+		c.tags["client-queue-exists"] = true
+		return "c=init-error sent="
 	case len(f) >= 2 && f[0] == "srv" && (f[1] == "eof" || f[1] == "silent"):
 		c.base, c.gor = c12CountFds(), runtime.NumGoroutine()
 		conn, raw, err := c12SocketPair()
@@ -638,6 +657,9 @@ func c12Gen(r *rand.Rand, tier string, idx int) []string {
 	}
 	if r.Intn(12) == 0 {
 		return []string{"srv " + tail() + " exver:3 mmemfdx:3 fds:2"}
+	}
+	if r.Intn(25) == 0 {
+		return []string{"cliq file"}
 	}
 	switch r.Intn(8) {
 	case 0:
